@@ -380,7 +380,7 @@ def nextSchedulerEvent (evTime : Int) : SimM SEvent := do
   let s ← get
   let f := s.flags
   let mut start : Int :=
-    if f.schedFrequency < 0 then evTime + 1
+    if f.schedFrequency ≤ 0 then evTime + 1
     else
       let nxt := s.lastSchedStart + f.schedFrequency
       if nxt < evTime then evTime + 1 else nxt
@@ -408,7 +408,7 @@ def nextSchedulerEvent (evTime : Int) : SimM SEvent := do
   if nextEvent.isNone && sched.isEmpty && running.isEmpty then
     return ← mkEvent ET.simulatorEnd (evTime + 1)
   else if !running.isEmpty && f.runAtWorkerFree then
-    start := minCompletion + 1
+    start := max start (minCompletion + 1)
   else
     let allBusy ← sched.allM (fun t => do
       let x ← getTask t
@@ -457,8 +457,8 @@ def handleSchedulerFinish (ev : SEvent) : SimM Unit := do
   let some d := s.lastPlacements | throw .typeError
   let time := ev.ev.time
   let numPlaced := (d.placements.filter (fun p => p.kind == .place && p.isPlaced)).length
-  -- `num_unplaced = count_placed_tasks(...) - num_placed` as written
-  row [istr time, "SCHEDULER_FINISHED", istr (time - s.lastSchedStart), nstr numPlaced, nstr (numPlaced - numPlaced), "<true_runtime>"]
+  let numUnplaced := (d.placements.filter (fun p => p.kind == .place && !p.isPlaced)).length
+  row [istr time, "SCHEDULER_FINISHED", istr (time - s.lastSchedStart), nstr numPlaced, nstr numUnplaced, "<true_runtime>"]
   let mut evs : List SEvent := []
   for p in d.placements do
     match p.kind with
@@ -636,6 +636,9 @@ def handleTaskPlacement (ev : SEvent) : SimM Unit := do
     let fuzzed ← liftTape drawFuzz
     taskCall t (·.doStart time fuzzed)
     logE (.start t time fuzzed pid)
+    -- a task with no work left is never reported by `step`: its completion is notified here
+    if (← liftE (← getTask t).remainingTime) == 0 then
+      addEvent (← mkEvent ET.taskFinished time (tid := some t))
     let pool'' ← getPool pid
     -- `worker_pool.get_allocated_resources(task)`
     let some wi := pool''.placed.get? (gid t) | throw .keyError
